@@ -40,7 +40,12 @@ impl Builder {
     pub fn push_mux(&mut self, s: GateIndex, x0: GateIndex, x1: GateIndex) -> GateIndex {
         self.0.push_mux(s, x0, x1)
     }
-    pub fn push_adder(&mut self, x: GateIndex, y: GateIndex, c: GateIndex) -> (GateIndex, GateIndex) {
+    pub fn push_adder(
+        &mut self,
+        x: GateIndex,
+        y: GateIndex,
+        c: GateIndex,
+    ) -> (GateIndex, GateIndex) {
         self.0.push_adder(x, y, c)
     }
     pub fn push_multiplier(
@@ -52,7 +57,12 @@ impl Builder {
     ) -> (GateIndex, GateIndex) {
         self.0.push_multiplier(x, y, z, c)
     }
-    pub fn push_condswap(&mut self, s: GateIndex, x: GateIndex, y: GateIndex) -> (GateIndex, GateIndex) {
+    pub fn push_condswap(
+        &mut self,
+        s: GateIndex,
+        x: GateIndex,
+        y: GateIndex,
+    ) -> (GateIndex, GateIndex) {
         self.0.push_condswap(s, x, y)
     }
     pub fn push_eq_circuit(&mut self, x: &[GateIndex], y: &[GateIndex]) -> GateIndex {
